@@ -94,12 +94,16 @@ theorem c07_model_ok (O : Oracles) (X : XmlOracle) (anc : String → List String
       -- error answer
       have hne : (status != 200) = true := by simp [bne, hs]
       simp only [Bool.false_eq_true, if_false]
+      apply Bool.or_eq_true_iff.mpr
+      right
+      unfold okDoc
       cases hx : X (stripPad text) with
       | none => rfl
       | some od =>
         cases od with
         | none =>
-          simp [decode, hne, hx, observe, DExc.cls, isResponseError, ExcObs.isA, H.r]
+          have hs' : ¬ status = 200 := by simpa using hs
+          simp [decode, hne, hx, observe, DExc.cls, isResponseError, ExcObs.isA, H.r, hs']
         | some doc =>
           simp only
           have hdec : decode O X a status (some text) =
@@ -131,12 +135,14 @@ theorem c07_model_ok (O : Oracles) (X : XmlOracle) (anc : String → List String
     | true =>
       have hne : (status != 200) = false := by simp [bne, hs]
       simp only [if_true]
+      unfold okDoc
       cases hx : X (rstripPad text) with
       | none => rfl
       | some od =>
         cases od with
         | none =>
-          simp [decode, hne, hx, observe, DExc.cls, isExcOf, ExcObs.isA, H.x]
+          have hs' : status = 200 := by simpa using hs
+          simp [decode, hne, hx, observe, DExc.cls, isExcOf, ExcObs.isA, H.x, hs']
         | some doc =>
           simp only
           have hdec : decode O X a status (some text) =
